@@ -332,12 +332,14 @@ def run_grid(ctx):
             if base is None:
                 base = M
                 ref = coh.reference(cg, est)
+                base_tol = 2 * t32_tol(ref.CNT, np.abs(ref.M)) if ref.M is not None else None
                 if ref.M is not None:
                     tol = 0 if exact else t32_tol(ref.CNT, np.abs(ref.M))
                     if M.shape != ref.M.shape or np.any(np.abs(M - ref.M) > tol):
                         ctx.violation("C04/%s/grid/baseline-differs-from-reference" % NAMES[estk], "single-thread default-memory run differs from the reference", cg, None, sig=cid)
                 continue
-            if M.shape != base.shape or (np.any(M != base) if exact else not np.allclose(M, base, rtol=2e-6, atol=1e-9)):
+            # non-integer kernels: both runs are within T32 of the exact value, so they are within 2*T32 of each other
+            if M.shape != base.shape or (np.any(M != base) if exact else (np.any(np.abs(M - base) > base_tol) if base_tol is not None else not np.allclose(M, base, rtol=1e-4, atol=1e-7))):
                 d = (M - base) if M.shape == base.shape else None
                 ctx.violation("C04/%s/grid/differs-from-single-thread-run/%s" % (NAMES[estk], "n_threads>1" if nt > 1 else "memory"),
                               "n_threads=%d memory=%s pool=%d delays=%s: result differs from n_threads=1 default memory (sum diff %s)" % (nt, mem, pool, bool(delays), None if d is None else float(d.sum())),
